@@ -13,13 +13,15 @@ kinds=[b[0] for b in bl]
 print("-- kinds:",kinds,"raw",len(raw),"data",len(part1+part2))
 data=part1+part2
 out=[]
-out.append("import Hm.BlockCheck\n")
-out.append("/-! Non-vacuity of the block theorems: a stream written by zlib 1.x (level 9, one `Z_FULL_FLUSH`) — a dynamic-Huffman\n    block, an empty stored block and a fixed-Huffman block — has exactly the bits `blocksBits 0 exBlocks` (`exBitList` = the bits of `exRaw`, least significant first, without\n    the zero padding of the last byte; that `packBits exBitList = exRaw` is checked by the C13 check's `encoder-spec`\n    family, which runs the compiled definitions) for the block description below (recovered from the stream by tools/deflate_blocks.py), the description satisfies `Block.Ok`, and\n    its expansion is the data.  All three facts are evaluated by the kernel. -/\n")
+out.append("import Hm.BlockCheck\nimport Hm.C13Bytes\n")
+out.append("/-! Non-vacuity of the block theorems: a stream written by zlib 1.x (level 9, one `Z_FULL_FLUSH`) — a dynamic-Huffman\n    block, an empty stored block and a fixed-Huffman block — has exactly the bits `blocksBits 0 exBlocks` followed by the padding of the last byte (`exBitList`, `ex_bytes`) for the\n    block description below (recovered from the stream by tools/deflate_blocks.py), the description satisfies `Block.Ok`, and\n    its expansion is the data.  All three facts are evaluated by the kernel. -/\n")
 out.append("def exData : Bytes := [%s]\n"%", ".join(map(str,data)))
 out.append("def exRaw : Bytes := [%s]\n"%", ".join(map(str,raw)))
 out.append("def exBlocks : List Block := [%s]\n"%",\n  ".join(map(lean_block,bl)))
 bits=[(raw[k//8]>>(k%8))&1 for k in range(parse.nbits)]
 out.append("/-- the bits of `exRaw`, least significant first, without the padding of the last byte -/\ndef exBitList : List Bool := [%s]\n"%", ".join("true" if b else "false" for b in bits))
+pad=[(raw[k//8]>>(k%8))&1 for k in range(parse.nbits,8*len(raw))]
+out.append("def exPad : List Bool := [%s]\n"%", ".join("true" if b else "false" for b in pad))
 open("Example.lean","w").write("\n".join(out))
 print(kinds)
 tail='''
@@ -32,10 +34,14 @@ theorem ex_ok : exBlocks.all blockOkB = true := by decide +kernel
 /-- and expands to the data -/
 theorem ex_expand : (expandBlocks #[] exBlocks).toList = exData := by decide +kernel
 
-/-- hence, by `C13_inflateRaw_blocks` (not by running the decoder), the packed stream inflates to the data -/
-theorem ex_inflate : inflateRaw (packBits exBitList) = some exData := by
-  have h := C13_inflateRaw_blocks exBlocks (by decide) (fun b hb => blockOkB_sound b (List.all_eq_true.mp ex_ok b hb))
-  rw [ex_bits0, ex_expand] at h
+/-- the bytes zlib wrote spell those bits and the padding of the last byte -/
+theorem ex_bytes : byteBits exRaw = exBitList ++ exPad := by decide +kernel
+
+/-- hence, by `C13_inflateRaw_bytes` (not by running the decoder), zlib's stream inflates to the data -/
+theorem ex_inflate : inflateRaw exRaw = some exData := by
+  have h := C13_inflateRaw_bytes exRaw exBlocks exPad (by decide) (fun b hb => blockOkB_sound b (List.all_eq_true.mp ex_ok b hb))
+    (by rw [ex_bits0]; exact ex_bytes)
+  rw [ex_expand] at h
   exact h
 '''
 open("Example.lean","a").write(tail)
